@@ -46,7 +46,11 @@ func NewWith(convert StructOptions, value interface{}) Value {
 	}
 
 	if v.Type() == timeType {
-		return String(v.Interface().(time.Time).Format(convert.TimeFormat))
+		var format = convert.TimeFormat
+		if format == "" {
+			format = time.RFC3339 // (as the field's documentation promises)
+		}
+		return String(v.Interface().(time.Time).Format(format))
 	}
 
 	switch v.Kind() {
